@@ -944,6 +944,10 @@ func (e *SpecEnv) call(x *ECall) Val {
 			return e.applyPure(pf, nil, x.Args)
 		}
 	}
+	// shared (standard-library model) specification functions
+	if pf := e.fx.eng.pureFunc("std", id.Name); pf != nil {
+		return e.applyPure(pf, nil, x.Args)
+	}
 	sfail("unknown function %q in %s", id.Name, x)
 	return Val{}
 }
